@@ -92,7 +92,8 @@ package ports
 //@   ensures res1 == nil ==> forall k int :: 0 <= k && k < len(res0.Accepted) ==> (exists j int :: 0 <= j && j < reflLen(items) && res0.Accepted[k] == reflIndex(items, j)) && passes(config, fnapp(nameExtractor, res0.Accepted[k]))
 //@   ensures res1 == nil ==> forall j int :: 0 <= j && j < reflLen(items) && passes(config, fnapp(nameExtractor, reflIndex(items, j))) ==> (exists k int :: 0 <= k && k < len(res0.Accepted) && res0.Accepted[k] == reflIndex(items, j))
 
-//@ interface MetricsExtractor.ExtractFromChunk
+//@ interface MetricsExtractor.ExtractFromChunk(ctx, chunk, providerName)
+//@   requires ctx != nil
 //@   ensures res == nil || finiteMetrics(res)
 
 // ---- C14: what the proxy engine is handed by the translation handler. px* record the last call: the endpoint list,
